@@ -1,5 +1,5 @@
 SPECIFICATION Spec
-CONSTANTS MaxPieces = 3  ProfileNames = {"plain", "tricky"}  Ns = {0, 1, 11}
+CONSTANTS MaxPieces = 3  ProfileNames = {"plain", "tricky"}  Ns = {1, 11}
 INVARIANT NoDollarUnchanged
 INVARIANT EmitCases
 CHECK_DEADLOCK FALSE
